@@ -173,7 +173,7 @@ PFAST = ["number::Number::is_fast_path", "number::Number::try_fast_path", "num::
 for t, rng in (("f64", "m<=2^53, -22<=e<=37"), ("f32", "m<=2^24, -10<=e<=17")):
     K("pfast_try_fast_path_" + t, "number", ["C01" if t == "f64" else "C02", "C08", "C09", "C10", "C05", "C04"],
       "try_fast_path (generic code instantiated with an abstract Float that records operations; constants and power look-up are the real %s ones), ALL Numbers: Some iff (!many_digits, %s, and for e>emax m*10^(e-emax) <= 2^(ms+1)); the result is exactly one IEEE op: from_u64(m)/10^-e, from_u64(m)*10^e, or from_u64(m*10^(e-emax))*10^emax; table index <= emax" % (t, rng),
-      PFAST, features=["default", "alloc"])
+      PFAST, features=["default"], timeout=1500)
     K("pfast_native_" + t, "number", ["C01" if t == "f64" else "C02", "C04", "C07", "C08"],
       "try_fast_path::<%s> ALL Numbers: no panic/OOB; Some(x) => x finite, non-negative, not NaN; zero significand => +0.0" % t,
       PFAST, features=["default", "alloc"], timeout=900)
@@ -244,7 +244,7 @@ K("pnum_into_i32_add_digit", "parse", PNP, "into_i32 clamps usize to i32::MAX; a
 for t in ("f64", "f32"):
     K("gdispatch_parse_float_" + t, "parse", ["C01" if t == "f64" else "C02", "C04", "C07", "C16", "C05", "C09", "C10"],
       "parse_float (generic code, abstract Float with the real %s constants; parse_number / moderate_path / slow replaced by ghost recorders returning contract-constrained symbolic results): fast-path value returned as is; else definite moderate result packed unchanged with no slow call; else exactly one slow call with (num, estimate un-biased by 32768, the original iterators) and its result packed unchanged" % t,
-      ["parse::parse_float", "parse::moderate_path", "extended_float::extended_to_float"], features=["default", "alloc"], zflags=("stubbing",), timeout=600)
+      ["parse::parse_float", "parse::moderate_path", "extended_float::extended_to_float"], features=["default"], zflags=("stubbing",), timeout=1200)
 K("gdispatch_moderate_is_lemire", "parse", ["C01", "C02", "C05"], "moderate_path == lemire in non-compact builds (smoke-size domain: the wrapper has no logic)", ["parse::moderate_path"], strength="bounded", bound="mantissa < 1000, exponent 0..=5", features=["default", "alloc"], timeout=600)
 
 # --------------------------------------------------------------------------- P-SLOW (slow.rs)
